@@ -73,14 +73,29 @@ func (f *frame) doCall(v *ssa.Call, st *State, reach string) {
 	callee := com.StaticCallee()
 	if callee != nil && f.ctr != nil {
 		for suffix, asserts := range f.ctr.CallAsserts {
-			if strings.HasSuffix(callee.String(), suffix) {
+			if shortFn(callee) == suffix || callee.Name() == suffix || strings.HasSuffix(callee.String(), "."+suffix) {
 				env := map[string]Val{}
 				for i, a := range com.Args {
 					env[fmt.Sprintf("arg%d", i)] = f.val(a)
 				}
+				// clauses that share a label are one obligation (a conjunction) per call site
+				var labels []string
+				byLabel := map[string][]string{}
+				slow := map[string]bool{}
 				for _, as := range asserts {
-					o := e.oblige("at", fmt.Sprintf("%s/at@%s:%s", f.name, callee.Name(), as.Label), "", reach, f.evalSpec(as.Src, st, env, nil))
-					o.Slow = as.Slow
+					if _, ok := byLabel[as.Label]; !ok {
+						labels = append(labels, as.Label)
+					}
+					byLabel[as.Label] = append(byLabel[as.Label], f.evalSpec(as.Src, st, env, nil))
+					slow[as.Label] = slow[as.Label] || as.Slow
+				}
+				for _, l := range labels {
+					prop := byLabel[l][0]
+					if len(byLabel[l]) > 1 {
+						prop = "(and " + strings.Join(byLabel[l], " ") + ")"
+					}
+					o := e.oblige("at", fmt.Sprintf("%s/at@%s:%s", f.name, callee.Name(), l), "", reach, prop)
+					o.Slow = slow[l]
 				}
 			}
 		}
@@ -128,8 +143,9 @@ func (f *frame) doCall(v *ssa.Call, st *State, reach string) {
 		return
 	}
 	if f.wouldInline(callee) {
-		f.inlineWith(v, callee, args, nil, st, reach)
-		return
+		if f.tryInline(v, callee, args, nil, st, reach) {
+			return
+		}
 	}
 	if pureStd(name) {
 		e.noteAssumed("pure (no observable writes), result unconstrained: " + name)
@@ -446,6 +462,37 @@ func (f *frame) getUint(v *ssa.Call, name string, args []Val, st *State, reach s
 		t = "(concat " + strings.Join(parts, " ") + ")"
 	}
 	f.vals[v] = Val{term: e.define(v.Name(), e.sc.sortOf(v.Type()), t), typ: v.Type()}
+}
+
+// tryInline inlines the callee; if its body turns out to be outside the subset
+// the partial work is rolled back and the caller falls back to a havocked call.
+func (f *frame) tryInline(v *ssa.Call, callee *ssa.Function, args []Val, free []Val, st *State, reach string) (ok bool) {
+	e := f.e
+	nd, no := len(e.decls), len(e.obls)
+	saved := st.clone()
+	depth := e.inlineDepth
+	nloc := len(f.locals)
+	defer func() {
+		if r := recover(); r != nil {
+			e.decls = e.decls[:nd]
+			e.obls = e.obls[:no]
+			for k := range e.declared {
+				_ = k
+			}
+			// declarations made during the failed attempt are gone: forget them
+			e.redeclare()
+			st.heaps, st.epoch = saved.heaps, saved.epoch
+			e.inlineDepth = depth
+			f.locals = f.locals[:nloc]
+			if e.havocs == nil {
+				e.havocs = map[string]bool{}
+			}
+			e.havocs[fmt.Sprintf("not inlined (%v): %s", r, callee.String())] = true
+			ok = false
+		}
+	}()
+	f.inlineWith(v, callee, args, free, st, reach)
+	return true
 }
 
 func (f *frame) inlineWith(v *ssa.Call, callee *ssa.Function, args []Val, free []Val, st *State, reach string) {
